@@ -57,6 +57,8 @@ def items(i, n, tier):
         # a group in front: one of its alternatives yields no object, so the reference after the group can be the result as well / every
         # alternative yields an object, so it cannot
         out += [SEQ(ALT(L("a"), REF("R")), REF("S")), SEQ(ALT(REF("R"), REF("S")), REF("R"))]
+        # an unordered group: whichever element comes first in the INPUT yields the result
+        out += [("ugrp", (REF("R"), REF("S")), None, False), ("ugrp", (L("a"), REF("S")), None, False)]
     if small:
         if i == n - 1:
             # only in the last rule: a guarded reference back to an earlier rule followed by a common rule
@@ -139,6 +141,13 @@ def inh(st, e):
         return out
     if k in ("opt", "star", "plus"):
         return inh(st, e[1])
+    if k == "ugrp":
+        out = []
+        for x in e[1]:  # any element may come first
+            for c in inh(st, x):
+                if c not in out:
+                    out.append(c)
+        return out
     return []  # predicates and suppressed matches yield nothing
 
 
@@ -153,6 +162,8 @@ def always(st, e):
         return any(always(st, x) for x in e[1])
     if k == "plus":
         return always(st, e[1])
+    if k == "ugrp":
+        return any(always(st, x) for x in e[1])  # every element is matched, in some order
     return False  # optional / repeated-from-zero elements may be absent; literals, predicates and suppressed matches yield nothing
 
 
